@@ -89,7 +89,7 @@ def vars_from_tag(tag):
                 pre_release=(lab[f["pre"][0]], f["pre"][1]) if f["pre"] else None, post=f["post"], dev=f["dev"])
 
 
-def gen_fields(rng, bound):
+def gen_fields(rng, bound, epoch0=False):
     nums = [0, 1, 2, 9, 10, 99, 2 ** 31, 2 ** 32 - 2, 2 ** 32 - 1]
     if bound > U32:
         nums = nums + [2 ** 32, 2 ** 53 + 1, 2 ** 64 - 2, 2 ** 64 - 1]
@@ -97,6 +97,8 @@ def gen_fields(rng, bound):
     f = dict(major=pick(), minor=pick(), patch=pick(), epoch=None, pre=None, post=None, dev=None, build=None)
     if rng.random() < 0.3:
         f["epoch"] = max(1, pick())
+    elif epoch0 and rng.random() < 0.06:
+        f["epoch"] = 0          # an explicit `epoch.0` is canonical shape too: SemVer -> SemVer must keep it (PEP 440 normal form drops a zero epoch)
     if rng.random() < 0.5:
         f["pre"] = (rng.choice(["alpha", "beta", "rc"]), pick())
     if rng.random() < 0.4:
@@ -144,12 +146,17 @@ def work_canonical(bins, cases):
                  (p, "pep440", "semver", s, "the PEP 440 form back to the original SemVer"),
                  (p, "pep440", "pep440", p, "PEP 440 rendering is a fixed point"),
                  (s, "auto", "pep440", p, "auto-detected canonical SemVer to PEP 440")]
+        if f.get("epoch") == 0:
+            p0 = canon_pep440(dict(f, epoch=None))
+            steps = [(s, "semver", "semver", s, "canonical SemVer with an explicit epoch.0 must render to SemVer unchanged"),
+                     (s, "semver", "pep440", (p, p0), "canonical SemVer with epoch.0 to PEP 440 (zero epoch printed or dropped)"),
+                     (p0, "pep440", "pep440", p0, "PEP 440 rendering is a fixed point")]
         for inp, fi, fo, want, what in steps:
             n += 1
             k, out = _res(call(pr, inp, fi, fo))
             if k == "panic":
                 bad.append(("panic@" + out.split(":")[0], "render %r (%s->%s) panicked: %s" % (inp, fi, fo, out), dict(kind="canonical", fields=f)))
-            elif k != "ok" or out != want:
+            elif k != "ok" or (out not in want if isinstance(want, tuple) else out != want):
                 bad.append(("conversion-differs", "%s: render %r -f %s --output-format %s gave %r, expected %r" % (what, inp, fi, fo, out, want), dict(kind="canonical", fields=f)))
     return dict(n=n, bad=bad)
 
@@ -357,7 +364,7 @@ def run(ctx):
     quick = ctx.tier == "quick"
     rng = ctx.sub_rng("c07")
     ncanon = 25000 if quick else 800000
-    canon = [gen_fields(rng, U32) for _ in range(ncanon)]
+    canon = [gen_fields(rng, U32, epoch0=True) for _ in range(ncanon)]
     npep = 25000 if quick else 800000
     peps = sorted(set(gen_pep(rng) for _ in range(npep)))
     nsem = 15000 if quick else 600000
